@@ -729,6 +729,33 @@ func SchedOracle(c *SchedCase, obs *SchedObs) []SchedFinding {
 				}
 			}
 		}
+		// plz must not even begin to build a target one of whose (transitive) dependencies cannot be built
+		for l := range begins {
+			if c.target(l) == nil {
+				continue
+			}
+			seen := map[string]bool{}
+			var visit func(x string) string
+			visit = func(x string) string {
+				if t := c.target(x); t != nil {
+					for _, d := range t.Deps {
+						if bad[d] != "" {
+							return d
+						}
+						if !seen[d] {
+							seen[d] = true
+							if b := visit(d); b != "" {
+								return b
+							}
+						}
+					}
+				}
+				return ""
+			}
+			if b := visit(l); b != "" && started[l] == 0 {
+				add("C05", "ran-after-failed-dependency", "plz began to build %s although %s, which it depends on, cannot be built (%s)", l, b, bad[b])
+			}
+		}
 		for l, n := range ends {
 			if n > 1 {
 				add("C04", "result-reported-twice", "%s has %d final results in the result stream", l, n)
